@@ -36,6 +36,23 @@ class ScalarT (K : Type) extends ScalarO K where
   sin  : K → K
   cos  : K → K
   fabs : K → K
+  tan  : K → K
+  atan2 : K → K → K
+  acos : K → K
+  asin : K → K
+  atan : K → K
+  exp  : K → K
+  log  : K → K
+  sinh : K → K
+  cosh : K → K
+  tanh : K → K
+  acosh : K → K
+  cbrt : K → K
+  floor : K → K
+  ceil : K → K
+  pow  : K → K → K
+  isFinite : K → Bool
+  isNaN : K → Bool
 
 instance : Scalar Float where
   zero := 0.0
@@ -56,6 +73,23 @@ instance : ScalarT Float where
   sin := Float.sin
   cos := Float.cos
   fabs := Float.abs
+  tan := Float.tan
+  atan2 := Float.atan2
+  acos := Float.acos
+  asin := Float.asin
+  atan := Float.atan
+  exp := Float.exp
+  log := Float.log
+  sinh := Float.sinh
+  cosh := Float.cosh
+  tanh := Float.tanh
+  acosh := Float.acosh
+  cbrt := Float.cbrt
+  floor := Float.floor
+  ceil := Float.ceil
+  pow := Float.pow
+  isFinite := Float.isFinite
+  isNaN := Float.isNaN
 
 /-- 3-vectors -/
 structure V3 (K : Type) where
